@@ -389,6 +389,16 @@ def w_model(ctx, rng, i):
             inst = model.instance(w)
             model.project(inst); model.reconstruct(inst); model.project_out(inst)
             model.instance_vector(w); model.reconstruct_vector(x); model.project_out_vector(x)
+    # weights in the other documented spellings (a list, a tuple, only the leading few): the same instance
+    wa = rng.normal(size=model.n_active_components)
+    for wl in (list(wa), tuple(float(v) for v in wa), [float(v) for v in wa[: max(1, len(wa) // 2)]]):
+        ctx.tap("weights_as_python_sequences", "calls"); ctx.tap("weights_as_python_sequences", "checked")
+        ref_i = np.asarray(PCAVectorModel.instance(model, np.asarray(wl, dtype=float)), dtype=float)
+        got_i = model.instance(wl) if backing == "vector" else model.instance_vector(wl)
+        if backing != "vector":
+            model.instance(wl)
+        if _amax(np.asarray(got_i, dtype=float) - ref_i) > 1e-9 * max(1.0, float(np.abs(ref_i).max())):
+            ctx.fail("instance_depends_on_the_spelling_of_the_weights", cls=cls, mech=type(wl).__name__)
     wn = rng.normal(size=model.n_active_components)
     model.instance(wn, normalized_weights=True)
     # queries given as integer-typed vectors (pixel counts, integer landmarks): the same numbers, the same answers
@@ -407,7 +417,7 @@ def w_model(ctx, rng, i):
     all_eigs = np.array(model._eigenvalues, copy=True)   # at this point nothing is trimmed: these are all eigenvalues
     orig = float(all_eigs.sum())
     for step in range(int(rng.integers(1, 11))):
-        kind = ["int", "float", "trim_int", "trim_float", "restore", "query", "copy", "whiten", "mean_handed_out", "one_then_everything"][rng.integers(0, 10)]
+        kind = ["int", "float", "trim_int", "trim_float", "restore", "query", "copy", "whiten", "mean_handed_out", "one_then_everything", "trim_default"][rng.integers(0, 11)]
         if kind == "one_then_everything" and (any("trim" in e for e in events) or model.variance_ratio() > 1.0 or float(np.sum(model._eigenvalues)) < orig):
             kind = "query"          # (1.0 is only a legal request while nothing has been trimmed away)
         if kind == "one_then_everything":
@@ -480,6 +490,15 @@ def w_model(ctx, rng, i):
                          fraction=f, got=int(model.n_active_components), expected=exp, history=events)
             elif model.variance_ratio() < f - 1e-9:
                 ctx.fail("kept_variance_ratio_below_the_requested_fraction", cls=cls, mech=kind)
+        elif kind == "trim_default":
+            # the documented default: trim to the components that are active now
+            k = int(model.n_active_components)
+            if rng.random() < 0.5:
+                model.trim_components()
+            else:
+                model.trim_components(None)
+            if model.n_components != k or model.n_active_components != k:
+                ctx.fail("trim_did_not_keep_the_requested_number", cls=cls, mech="default_form", got=int(model.n_components), expected=k)
         elif kind == "trim_int":
             k = int(rng.integers(1, model.n_components + 1))
             model.trim_components(k)
@@ -518,7 +537,7 @@ def w_model(ctx, rng, i):
         PCAVectorModel.instance(model, rng.normal(size=model.n_active_components), normalized_weights=True)
         if backing != "vector":
             object_api(ctx, model, w, x, scale)
-    changed = any(e in ("int", "float", "trim_int", "trim_float") for e in events)
+    changed = any(e in ("int", "float", "trim_int", "trim_float", "trim_default") for e in events)
     ctx.count_case((backing, rel, centre, tuple(sorted(set(events)))), nontrivial=total >= 2 and changed,
                    sample={"backing": backing, "n": n, "d": d, "centred": centre, "history": events} if i < 6 else None)
 
